@@ -17,7 +17,7 @@ fn kinds_at(cx: &Cx, tag: u32, stamp: u64) -> BTreeMap<Hk, i64> {
             break;
         }
         if let K::Ref { tag: t, hk, delta, c } = &e.k {
-            if *t == tag && *c < 1000 {
+            if *t == tag && *c < 1000 && *hk != Hk::Fut {
                 *m.entry(*hk).or_insert(0) += *delta as i64;
             }
         }
